@@ -48,7 +48,7 @@ def replay_histories(call):
     return bad
 
 
-def replay(call):
+def _replay(call):
     warnings.filterwarnings('ignore')
     kind = call.get('kind')
     fn = dict(nth=lambda c: replay_nth(c) + replay_histories(c), bi_read=replay_histories, drop_repeats=replay_histories, bi_merge=replay_histories).get(kind)
@@ -56,3 +56,8 @@ def replay(call):
         return dict(fails=None, detail='no native battery for %r' % kind)
     bad = fn(call)
     return dict(fails=bool(bad), detail=('; '.join(bad))[:600] if bad else 'the clause holds on the real code for the whole battery of this obligation family')
+
+
+def replay(call):
+    from rac.ded_cache import cached
+    return cached(__name__, call, lambda: _replay(call), uses=(('model',) if call.get('kind') == 'nth' else ()), deps=(__file__, B.__file__))
